@@ -396,4 +396,56 @@ theorem sliceU_wf (e : Bytes) (hh : Hdr e) : WF sliceU e e := by
   rw [dl]
   simp [List.append_assoc]
 
+
+/-- the decomposition "complete messages ++ strict prefix of the next one" of a stream prefix is unique -/
+theorem decomp_unique : ∀ (d1 d2 r1 r2 : List (Bytes × Msg)) (t1 t2 : Bytes),
+    (∀ p ∈ d1 ++ r1, p.1 ≠ []) → d1 ++ r1 = d2 ++ r2 →
+    (d1.map (·.1)).flatten ++ t1 = (d2.map (·.1)).flatten ++ t2 →
+    (t1 = [] ∨ ∃ e m rem' y, r1 = (e, m) :: rem' ∧ e = t1 ++ y ∧ y ≠ []) →
+    (t2 = [] ∨ ∃ e m rem' y, r2 = (e, m) :: rem' ∧ e = t2 ++ y ∧ y ≠ []) →
+    d1 = d2 ∧ t1 = t2 := by
+  intro d1
+  induction d1 with
+  | nil =>
+    intro d2 r1 r2 t1 t2 hne he hs c1 c2
+    cases d2 with
+    | nil => exact ⟨rfl, by simpa using hs⟩
+    | cons p d2' =>
+      exfalso
+      simp only [List.nil_append, List.map_nil, List.flatten_nil, List.map_cons, List.flatten_cons, List.cons_append,
+        List.append_assoc] at he hs
+      have hp : p.1 ≠ [] := hne p (by simp [he])
+      have hl : p.1.length ≤ t1.length := by rw [hs]; simp
+      rcases c1 with h | ⟨e, m, rem', y, hr, hey, hy⟩
+      · subst h; simp at hl; exact hp hl
+      · rw [hr] at he
+        have : (e, m) = p := (List.cons.inj he).1
+        subst this
+        have hlen : e.length = t1.length + y.length := by rw [hey]; simp
+        have : 0 < y.length := List.length_pos_iff.mpr hy
+        simp only at hl; omega
+  | cons p d1' ih =>
+    intro d2 r1 r2 t1 t2 hne he hs c1 c2
+    cases d2 with
+    | nil =>
+      exfalso
+      simp only [List.nil_append, List.map_nil, List.flatten_nil, List.map_cons, List.flatten_cons, List.cons_append,
+        List.append_assoc] at he hs
+      have hp : p.1 ≠ [] := hne p (by simp)
+      have hl : p.1.length ≤ t2.length := by rw [← hs]; simp
+      rcases c2 with h | ⟨e, m, rem', y, hr, hey, hy⟩
+      · subst h; simp at hl; exact hp hl
+      · rw [hr] at he
+        have : p = (e, m) := (List.cons.inj he).1
+        subst this
+        have hlen : e.length = t2.length + y.length := by rw [hey]; simp
+        have : 0 < y.length := List.length_pos_iff.mpr hy
+        simp only at hl; omega
+    | cons q d2' =>
+      simp only [List.cons_append, List.map_cons, List.flatten_cons, List.append_assoc] at he hs
+      obtain ⟨hpq, he'⟩ := List.cons.inj he
+      subst hpq
+      have hs' := List.append_cancel_left hs
+      obtain ⟨hd, ht⟩ := ih d2' r1 r2 t1 t2 (fun x hx => hne x (by simp only [List.cons_append, List.mem_cons]; exact .inr hx)) he' hs' c1 c2
+      exact ⟨by rw [hd], ht⟩
 end Pox.Framing
